@@ -147,6 +147,9 @@ type vfStore struct {
 	// answer around). Only meaningful when requests are issued one at a time.
 	SharedReplies bool
 	sharedVFS     *StatVFS
+	// CtxBoundObjects: ReadAt/WriteAt of handler objects fail once the context of the request that opened them is done
+	// (an object that passes the context on to its backend)
+	CtxBoundObjects bool
 	// EagerEOF: a read that reaches the end of the file reports io.EOF together with its bytes, also when it
 	// filled the buffer (io.ReaderAt: "may return either err == EOF or err == nil" in that case)
 	EagerEOF bool
@@ -279,6 +282,9 @@ func (o *vfObj) ReadAt(p []byte, off int64) (int, error) {
 			return 0, err
 		}
 	}
+	if o.st.CtxBoundObjects && o.ctx.Err() != nil {
+		return 0, o.ctx.Err()
+	}
 	if off < 0 {
 		return 0, fmt.Errorf("negative offset %d", off)
 	}
@@ -316,6 +322,9 @@ func (o *vfObj) WriteAt(p []byte, off int64) (int, error) {
 		if err := o.st.FailAt(o.path, off, len(p), true); err != nil {
 			return 0, err
 		}
+	}
+	if o.st.CtxBoundObjects && o.ctx.Err() != nil {
+		return 0, o.ctx.Err()
 	}
 	if off < 0 || off > 1<<26 {
 		return 0, fmt.Errorf("offset %d out of the store's range", off)
@@ -638,11 +647,12 @@ func (h vfHCmdAll) StatVFS(r *Request) (*StatVFS, error) {
 		h.s.mu.Lock()
 		defer h.s.mu.Unlock()
 		if h.s.sharedVFS == nil {
-			h.s.sharedVFS = &StatVFS{Bsize: 4096, Frsize: 4096, Blocks: 1000, Bfree: 500, Bavail: 400, Files: 99, Ffree: 88, Favail: 77, Fsid: 5, Flag: 1, Namemax: 255}
+			h.s.sharedVFS = &StatVFS{ID: 4242, Bsize: 4096, Frsize: 4096, Blocks: 1000, Bfree: 500, Bavail: 400, Files: 99, Ffree: 88, Favail: 77, Fsid: 5, Flag: 1, Namemax: 255}
 		}
 		return h.s.sharedVFS, nil
 	}
-	return &StatVFS{Bsize: 4096, Frsize: 4096, Blocks: 1000, Bfree: 500, Bavail: 400, Files: 99, Ffree: 88, Favail: 77, Fsid: 5, Flag: 1, Namemax: 255}, nil
+	// (a handler that fills every exported field, e.g. by passing on what an upstream Client.StatVFS returned: the ID is not its to choose)
+	return &StatVFS{ID: 4242, Bsize: 4096, Frsize: 4096, Blocks: 1000, Bfree: 500, Bavail: 400, Files: 99, Ffree: 88, Favail: 77, Fsid: 5, Flag: 1, Namemax: 255}, nil
 }
 
 type vfHListAll struct{ vfHBase }
